@@ -150,7 +150,7 @@ def run(chk):
     b = core.standard_build(chk)
     model = core.Model() if b.modelrun_ok else None
     full = chk.tier == 'thorough' or bool(b.drift) or not b.proof_ok
-    n = 500 if full else 70
+    n = core.budget(chk, full, 70, 500)
     chk.rule = ('generated documents (1-4 spines, splits and joins, global comments before / inside / after the spines) x '
                 '10 category filters (none, singles, random sets) x comment keys; non-trivial = distinct (text, filter, key)')
     results = engine.pmap(worker, [(chk.seed, i) for i in range(n)])
